@@ -369,7 +369,7 @@ pub fn lift_program(p: &Program) -> Option<Program> {
     Some(out)
 }
 
-fn judge_program(out: &mut Out, rng: &mut Rng, cfg: &Cfg, id: &str, text: &str, params: &Pat, d: Dialect, dash_o: bool, extra_names: &[String], modes_used: &[&str], twin: Option<&str>) {
+fn judge_program(out: &mut Out, rng: &mut Rng, cfg: &Cfg, id: &str, text: &str, params: &Pat, d: Dialect, dash_o: bool, extra_names: &[String], modes_used: &[&str], twin: Option<&str>, shape_prog: Option<&Program>) {
         let mut twin_report: Option<Option<Vec<String>>> = None; // computed on demand
         out.count("programs");
         let reported = match report(text) {
@@ -453,6 +453,15 @@ fn judge_program(out: &mut Out, rng: &mut Rng, cfg: &Cfg, id: &str, text: &str, 
                             if let Some(Some(tr)) = &twin_report {
                                 if !tr.contains(name) {
                                     sig = Some("usecheck:let-bound-variable-used-in-conditional-branch-is-lost");
+                                }
+                            }
+                            if sig.is_none() && matches!(&twin_report, Some(None)) {
+                                // the let-free twin cannot be checked (the evaluator gives up on it): attributed by the shape the
+                                // finding needs — a conditional branch somewhere in the program mentions a let / assign bound name
+                                if let Some(p) = shape_prog {
+                                    if crate::engines::c16::branch_mentions_a_let_bound_name(p, &[]) {
+                                        sig = Some("usecheck:let-bound-variable-used-in-conditional-branch-is-lost");
+                                    }
                                 }
                             }
                         }
@@ -545,16 +554,16 @@ pub fn run(cfg: &Cfg) -> i32 {
         }
         let text = lower_main_params(&render_program(&prog, d, false));
         let twin = lift_program(&prog).map(|t| lower_main_params(&render_program(&t, d, false)));
-        judge_program(&mut out, &mut rng, cfg, &id, &text, &prog.params, d, i % 2 == 1, &extra_names, &modes_used, twin.as_deref());
+        judge_program(&mut out, &mut rng, cfg, &id, &text, &prog.params, d, i % 2 == 1, &extra_names, &modes_used, twin.as_deref(), Some(&prog));
         out.end(&id);
     }
     if cfg.shard == 0 && out.begin("pinned-discarded-argument") {
         let text = "(mod (p0 p1)\n  (include *standard-cl-21*)\n  (defun ig (X) 17)\n  (c (ig (+ p0 1)) p1))\n";
         let params = Pat::flat(&[("p0".to_string(), Ty::Int), ("p1".to_string(), Ty::Int)], None);
-        judge_program(&mut out, &mut rng, cfg, "pinned-discarded-argument", text, &params, Dialect::Cl21, false, &[], &[], None);
+        judge_program(&mut out, &mut rng, cfg, "pinned-discarded-argument", text, &params, Dialect::Cl21, false, &[], &[], None, None);
         let text2 = "(mod (p0 p1)\n  (include *standard-cl-21*)\n  (let ((v p0)) (if p1 v 5)))\n";
         let twin2 = "(mod (p0 p1)\n  (include *standard-cl-21*)\n  (defun-inline ll_0 (v p1) (if p1 v 5))\n  (ll_0 p0 p1))\n";
-        judge_program(&mut out, &mut rng, cfg, "pinned-let-bound-use-in-branch", text2, &params, Dialect::Cl21, false, &[], &[], Some(twin2));
+        judge_program(&mut out, &mut rng, cfg, "pinned-let-bound-use-in-branch", text2, &params, Dialect::Cl21, false, &[], &[], Some(twin2), None);
         out.end("pinned-discarded-argument");
     }
     let bad = out.get("violations");
